@@ -392,3 +392,18 @@ theorem normalEnd_perm (c : Cfg) (hfw : c.forward = true) (hT : 1 ≤ c.T) (hTP 
 
 
 end Sedpack.Pool
+
+namespace Sedpack.Pool
+
+def whyOf : Ph → Nat | .resetting _ w => w | .fin w => w | _ => 0
+
+/-- the consumer only ever leaves its loop for one of the three reasons 0 (normal end),
+1 (re-raised failure), 2 (abandoned) -/
+theorem why_le_two (c : Cfg) (s : St) (h : Reach c s) : whyOf s.ph ≤ 2 := by
+  induction h with
+  | init => simp [init, whyOf]
+  | @step s s' l _ hs ih =>
+    cases l <;> simp only [step] at hs
+    all_goals (repeat' split at hs) <;> simp at hs <;> (try subst hs) <;> simp_all [whyOf]
+
+end Sedpack.Pool
